@@ -188,28 +188,43 @@ theorem C09_extra_remove_after_balanced (h : Heap) (k : HKey) (g : Graph) (x : W
     rw [c2]; simp [hn o q hq]
   exact C09_extra_remove h k g x _ w2 hn' hok hne
 
-/-! ### failure atomicity -/
+/-! ### failure atomicity
 
-/-- FULL-STRENGTH statement of the property's failure clause: a registration that
-raises leaves every count as it was.  FALSE of the code (finding F4):
-see `C09_failure_atomic_fails_at`. -/
-def C09_failure_atomic : Prop :=
-  ∀ (h : Heap) (k : HKey) (g : Graph) (x : W) (H : Hooks), WF H →
-    (addRemove h k false true g x H).err ≠ none →
-    ∀ o q, cnt (addRemove h k false true g x H).H o q = cnt H o q
+Since fix 4ea62e3 there is ONE undo log per outermost call: nested walks (children,
+extra graphs) and all graphs of an expression record into it, and the owner rolls
+everything back.  The clause is proved at full strength, for registration and for
+removal, wherever in the walk the exception is raised and however many sibling
+subtrees or graphs had completed.  (Before the fix it was false — findings F4, F4b,
+F4c; their histories are kept as regression cases below and in the corpus of
+harness/props/c09.py.) -/
 
-/-- Proved fragment: the walk raises before any SIBLING subtree completed
-(`firstFail`: at the node itself, or in the first child graph on the first
-object, recursively).  Missing for the full statement: failures after a
-completed sibling — there the code does not roll back. -/
-theorem C09_failure_atomic_partial (h : Heap) (k : HKey) (g : Graph) (x : W) (H : Hooks) (hw : WF H)
-    (hff : firstFail h g x = true) :
-    (addRemove h k false true g x H).err ≠ none ∧
-    (∀ o q, cnt (addRemove h k false true g x H).H o q = cnt H o q) ∧
-    WF (addRemove h k false true g x H).H :=
-  addRemove_atomic h k g true x H hw hff
+/-- A call of `add_or_remove_notifiers` (registration or removal) that raises leaves
+every count — reference counts of user notifiers, numbers of maintainers, at every
+observable — exactly as it was. -/
+theorem C09_failure_atomic (h : Heap) (k : HKey) (rm : Bool) (g : Graph) (x : W) (H : Hooks) (hw : WF H)
+    (he : (addRemove h k rm true g x H).err ≠ none) :
+    (∀ o q, cnt (addRemove h k rm true g x H).H o q = cnt H o q) ∧ WF (addRemove h k rm true g x H).H :=
+  addRemove_atomic h k g rm true x H hw he
 
-/-! #### negation witness (F4): `P(children=[Child(), Bad()]).observe(h, 'children.items.name')` -/
+/-- The same for `HasTraits.observe(handler, expression, remove=…)` as a whole: an
+expression compiling to several graphs is applied with one shared log, so a failure
+in a later graph also takes back the earlier ones (a compile error touches nothing). -/
+theorem C09_failure_atomic_observe (h : Heap) (handler : Nat) (root : Id) (rm : Bool) (e : Expr) (H : Hooks)
+    (hw : WF H) (he : (observe h handler root rm e H).err ≠ none) :
+    (∀ o q, cnt (observe h handler root rm e H).H o q = cnt H o q) ∧ WF (observe h handler root rm e H).H :=
+  observe_atomic h handler root rm e H hw he
+
+/-- … and for the calls the maintainers make while the object graph changes (they
+are outermost calls too): whatever a maintainer's failed walk touched is restored. -/
+theorem C09_failure_atomic_any_call (h : Heap) (k : HKey) (rm extra : Bool) (g : Graph) (x : W) (H : Hooks)
+    (hw : WF H) (he : (addRemove h k rm extra g x H).err ≠ none) :
+    ∀ o q, cnt (addRemove h k rm extra g x H).H o q = cnt H o q :=
+  (addRemove_atomic h k g rm extra x H hw he).1
+
+/-! #### regression: the former negation witnesses
+
+F4:  `P(children=[Child(), Bad()]).observe(h, 'children.items.name')`;
+F4b: `obj.observe(h, '[name, nosuch]')`. -/
 
 def fld (n : Name) (v : Val) : Field := ⟨n, false, .val .none, v⟩
 
@@ -226,19 +241,20 @@ def f4Graph : Graph :=
 
 def f4Key : HKey := ⟨0, 0⟩
 
-/-- The registration raises ValueError, yet the handler stays attached to the
-first child's trait. -/
-theorem C09_failure_atomic_fails_at :
+/-- The registration raises ValueError after the first child's subtree completed,
+and the handler is NOT left attached to the first child's trait any more. -/
+example :
     (addRemove f4Heap f4Key false true f4Graph (some 0) Hooks.empty).err = some .valueError ∧
-    cnt (addRemove f4Heap f4Key false true f4Graph (some 0) Hooks.empty).H (.trait 1 8) (.user f4Key) = 1 ∧
-    cnt Hooks.empty (.trait 1 8) (.user f4Key) = 0 := by decide
+    cnt (addRemove f4Heap f4Key false true f4Graph (some 0) Hooks.empty).H (.trait 1 8) (.user f4Key) = 0 := by
+  decide
 
-theorem C09_failure_atomic_false : ¬ C09_failure_atomic := by
-  intro hfull
-  have h1 := hfull f4Heap f4Key f4Graph (some 0) Hooks.empty WF_empty
-    (by rw [C09_failure_atomic_fails_at.1]; simp) (.trait 1 8) (.user f4Key)
-  rw [C09_failure_atomic_fails_at.2.1, C09_failure_atomic_fails_at.2.2] at h1
-  omega
+/-- `[name, nosuch]` on object 1: the first graph registers, the second raises, nothing stays. -/
+example :
+    (observe f4Heap 0 1 false (.parallel (.single (.named 8 true false)) (.single (.named 11 true false)))
+      Hooks.empty).err = some .valueError ∧
+    cnt (observe f4Heap 0 1 false (.parallel (.single (.named 8 true false)) (.single (.named 11 true false)))
+      Hooks.empty).H (.trait 1 8) (.user ⟨0, 1⟩) = 0 := by
+  decide
 
 /-! ### weakness -/
 
@@ -272,8 +288,14 @@ example : walkOk exHeap true exGraph (some 0) = true ∧
 example : WF Hooks.empty ∧ NoKey Hooks.empty f4Key :=
   ⟨WF_empty, by intro o q _; rfl⟩
 
-/-- `firstFail` is satisfiable: `child.nosuch` raises at the first object of the first child. -/
-example : firstFail exHeap (.node (.named nChild true false) [.node (.named 11 true false) []]) (some 0) = true := by
+/-- the hypothesis of `C09_failure_atomic` is satisfiable on non-empty hooks: a second,
+failing registration on top of a successful one restores the first one's counts -/
+example :
+    let H1 := (addRemove exHeap f4Key false true exGraph (some 0) Hooks.empty).H
+    (addRemove exHeap f4Key false true (.node (.named nChild true false) [.node (.named nValue true false) [],
+        .node (.named 11 true false) []]) (some 0) H1).err = some .valueError ∧
+    cnt (addRemove exHeap f4Key false true (.node (.named nChild true false) [.node (.named nValue true false) [],
+        .node (.named 11 true false) []]) (some 0) H1).H (.trait 1 nValue) (.user f4Key) = 1 := by
   decide
 
 /-- a dead handler with live hooks: the hypothesis of `C09_dead_is_mute` on a non-empty state -/
